@@ -72,6 +72,10 @@ def extra_programs():
                 "class A7:\n    def __init__(self, i):\n        self.inner = i\n")
     add("inherited_two_levels", ["o = C8(a)", "return o.m(b)"],
         helpers="class A8:\n    def __init__(self, v):\n        self.v = v\n    def m(self, d):\n        return self.v - d\n\nclass B8(A8):\n    pass\n\nclass C8(B8):\n    pass\n")
+    RB = "def handler(v):\n    return v + 1\n\ndef fast(v):\n    return v * 2\n"
+    add("local_shadowing_a_defined_function", ["handler = fast", "return handler(a)"], helpers=RB)
+    add("defined_function_rebound_in_branch", ["h = handler", "if c:", "    h = fast", "return h(a) + handler(b)"], helpers=RB)
+    add("global_function_name_rebound", ["return relay(a)"], helpers=RB + "\nhandler = fast\n\ndef relay(v):\n    return handler(v)\n")
     # calls through imports from other analysed files (each program is a directory: main.py + the modules)
     def addm(name, head, lines, modules):
         q = progs.prog(name, "F-call-multi", lines)
